@@ -266,7 +266,7 @@ func shapeClass(shape string) string {
 }
 
 func checkC01(c *Ctx) {
-	c.rule = "programs 输出‹expr›: (a) every binary operator x every ordered pair of a 44-value boundary pool passed as input variables; (b) every unbraced triple a op1 b op2 c over the 16 operators x operand classes, rendered without braces from its natural (manual precedence) tree; (c) random trees (literals in every documented numeric spelling with math/big values, variables, probes that display their evaluation order), braces only where the manual's precedence requires them. Oracle: independent reference evaluator (IEEE doubles, floor division, a-floor(a/b)*b, structural equality, short circuit). distinct_nontrivial = distinct (family, expression shape incl. operators, expected outcome kind) among cases the reference specifies"
+	c.rule = "programs 输出‹expr›: (a) every binary operator x every ordered pair of a 44-value boundary pool passed as input variables; (b) every unbraced triple a op1 b op2 c over the 16 operators x operand classes, rendered without braces from its natural (manual precedence) tree; (d) 为 / == / 不为 / /= between container literals (lists and dictionaries nested to depth 2 over 空, numbers, texts, booleans) and a variant with one leaf changed, an entry dropped / added, keys reordered or renamed; (c) random trees (literals in every documented numeric spelling with math/big values, variables, probes that display their evaluation order), braces only where the manual's precedence requires them. Oracle: independent reference evaluator (IEEE doubles, floor division, a-floor(a/b)*b, structural equality, short circuit). distinct_nontrivial = distinct (family, expression shape incl. operators, expected outcome kind) among cases the reference specifies"
 	c.assumptions = []string{"reference evaluator znref implements the manual/property semantics; cases it marks unspecified are skipped and counted", "doubles compared bit-wise (NaN==NaN, +0 != -0)"}
 	rng := c.Rand("c01")
 	var progs []*zr.Program
@@ -375,5 +375,122 @@ func checkC01(c *Ctx) {
 		p.Body = body
 		add(p, in, "tree/"+exprShape(e))
 	}
+	// (d) structural equality of container literals written in the program (so that 空 and other
+	// shared elements are the very same element on both sides): B is A with one leaf changed,
+	// an entry dropped / added, keys reordered, or nothing changed
+	for i := 0; i < c.Pick(800, 30000); i++ {
+		a := c01Container(rng, 2)
+		b, how := c01Mutate(rng, a)
+		op := []string{"为", "==", "不为", "/="}[rng.Intn(4)]
+		e := zr.Bin{Op: op, L: a, R: b}
+		body := []zr.Stmt{zr.Return{E: e}}
+		if rng.Intn(3) == 0 { // through variables (copies)
+			body = []zr.Stmt{zr.LetS("甲", a), zr.LetS("乙", b), zr.Return{E: zr.Bin{Op: op, L: zr.N("甲"), R: zr.N("乙")}}}
+		}
+		add(&zr.Program{Body: body}, nil, "containers/"+op+"/"+how+"/"+exprShape(a))
+	}
 	c.runRefCases("expr", progs, inputs, shapes, nil, nil)
+}
+
+func c01Leaf(r *rand.Rand) zr.Expr {
+	switch r.Intn(7) {
+	case 0, 1:
+		return zr.N("空")
+	case 2:
+		return intLit(r.Intn(4))
+	case 3:
+		return zr.S([]string{"", "a", "1"}[r.Intn(3)])
+	case 4:
+		return zr.N([]string{"真", "假"}[r.Intn(2)])
+	case 5:
+		return zr.Num{Lit: "0.5", V: 0.5}
+	}
+	return intLit(1)
+}
+
+func c01Container(r *rand.Rand, depth int) zr.Expr {
+	n := r.Intn(4)
+	child := func() zr.Expr {
+		if depth > 0 && r.Intn(3) == 0 {
+			return c01Container(r, depth-1)
+		}
+		return c01Leaf(r)
+	}
+	if r.Intn(2) == 0 {
+		l := zr.ListLit{}
+		for k := 0; k < n; k++ {
+			l.Items = append(l.Items, child())
+		}
+		return l
+	}
+	d := zr.DictLit{}
+	for k := 0; k < n; k++ {
+		d.Keys = append(d.Keys, string(nameGlyphs[k]))
+		d.KeyForm = append(d.KeyForm, 0)
+		d.Vals = append(d.Vals, child())
+	}
+	return d
+}
+
+// c01Mutate returns a variant of container e and the kind of change.
+func c01Mutate(r *rand.Rand, e zr.Expr) (zr.Expr, string) {
+	switch x := e.(type) {
+	case zr.ListLit:
+		y := zr.ListLit{Items: append([]zr.Expr{}, x.Items...)}
+		switch k := r.Intn(5); {
+		case k == 0 || len(y.Items) == 0:
+			if len(y.Items) == 0 && k > 1 {
+				y.Items = append(y.Items, c01Leaf(r))
+				return y, "added"
+			}
+			return y, "same"
+		case k == 1:
+			y.Items = y.Items[:len(y.Items)-1]
+			return y, "dropped"
+		case k == 2:
+			y.Items = append(y.Items, c01Leaf(r))
+			return y, "added"
+		default:
+			// change the LAST leaf, so that equal (often identical) elements come first
+			i := len(y.Items) - 1
+			if sub, ok := y.Items[i].(zr.ListLit); ok {
+				y.Items[i], _ = c01Mutate(r, sub)
+			} else if sub, ok := y.Items[i].(zr.DictLit); ok {
+				y.Items[i], _ = c01Mutate(r, sub)
+			} else {
+				y.Items[i] = c01Leaf(r)
+			}
+			return y, "leaf"
+		}
+	case zr.DictLit:
+		y := zr.DictLit{Keys: append([]string{}, x.Keys...), KeyForm: append([]int{}, x.KeyForm...), Vals: append([]zr.Expr{}, x.Vals...)}
+		switch k := r.Intn(6); {
+		case k == 0 || len(y.Keys) == 0:
+			return y, "same"
+		case k == 1:
+			y.Keys, y.KeyForm, y.Vals = y.Keys[:len(y.Keys)-1], y.KeyForm[:len(y.KeyForm)-1], y.Vals[:len(y.Vals)-1]
+			return y, "dropped"
+		case k == 2:
+			// same entries, reversed insertion order
+			for a, b := 0, len(y.Keys)-1; a < b; a, b = a+1, b-1 {
+				y.Keys[a], y.Keys[b] = y.Keys[b], y.Keys[a]
+				y.Vals[a], y.Vals[b] = y.Vals[b], y.Vals[a]
+			}
+			return y, "reordered"
+		case k == 3:
+			y.Keys[len(y.Keys)-1] = "换"
+			return y, "key"
+		default:
+			i := len(y.Keys) - 1
+			if sub, ok := y.Vals[i].(zr.ListLit); ok {
+				y.Vals[i], _ = c01Mutate(r, sub)
+			} else if sub, ok := y.Vals[i].(zr.DictLit); ok {
+				y.Vals[i], _ = c01Mutate(r, sub)
+			} else {
+				y.Vals[i] = c01Leaf(r)
+			}
+			return y, "leaf"
+		}
+	}
+	return e, "same"
 }
